@@ -54,11 +54,21 @@ pub struct C17Scenario {
     /// explicit tampers (replay / minimised); overrides the seeded choice
     #[serde(default)]
     pub only: Vec<Tamper>,
+    /// `config generate` and every later invocation run from a sub-directory that holds the source file, with
+    /// `-f` naming the configuration in the repository root (source.path is relative to the working directory)
+    #[serde(default)]
+    pub cwd_sub: bool,
 }
 
 pub struct C17;
 
 fn gen_c17(seed: u64, idx: usize, tier: Tier) -> C17Scenario {
+    let mut sc = gen_c17_base(seed, idx, tier);
+    sc.cwd_sub = sc.rand_seed % 4 == 0;
+    sc
+}
+
+fn gen_c17_base(seed: u64, idx: usize, tier: Tier) -> C17Scenario {
     let mut rng = Rng::new(scenario_seed(seed, "C17", idx));
     // sizes from ~300 B to ~70 KiB, biased to land around 4096 / 8192 / 16384 / 65536
     let n_targets = match rng.below(8) {
@@ -75,7 +85,7 @@ fn gen_c17(seed: u64, idx: usize, tier: Tier) -> C17Scenario {
     for i in 0..src_len {
         src.push(if rng.chance(1, 10) { rng.below(256) as u8 } else { b"module.exports = {} \n"[i % 21] });
     }
-    C17Scenario { n_targets, name_pad, source_hex: crate::proto::hex(&src), tamper_seed: rng.next_u64(), n_tampers: if tier == Tier::Thorough { 40 } else { 10 }, rand_seed: rng.next_u64() % 1_000_000, only: vec![] }
+    C17Scenario { n_targets, name_pad, source_hex: crate::proto::hex(&src), tamper_seed: rng.next_u64(), n_tampers: if tier == Tier::Thorough { 40 } else { 10 }, rand_seed: rng.next_u64() % 1_000_000, only: vec![], cwd_sub: false }
 }
 
 fn pick_offsets(rng: &mut Rng, len: usize) -> usize {
@@ -249,10 +259,16 @@ fn exec_c17(sc: &C17Scenario) -> Outcome {
     let hang = Duration::from_millis(default_hang_ms());
     let mut out = Outcome::default();
     // ---- config generate
-    let src_rel = "Monorail.src.js";
+    let src_name = "Monorail.src.js";
+    let src_rel_root = if sc.cwd_sub { format!("cfgdir/{}", src_name) } else { src_name.to_string() };
+    let src_rel = src_name;
     let source = crate::proto::unhex(&sc.source_hex);
-    if w.write_bytes(src_rel, &source).is_err() {
+    if w.write_bytes(&src_rel_root, &source).is_err() {
         return Outcome::skip("cannot write source");
+    }
+    if sc.cwd_sub {
+        w.cwd_rel = Some("cfgdir".into());
+        out.fault("invocations_from_a_sub_directory_holding_the_source", 1);
     }
     let mut input = spec.config_json(w.ports.lock, w.ports.log);
     input["source"] = json!({ "path": src_rel });
@@ -262,14 +278,17 @@ fn exec_c17(sc: &C17Scenario) -> Outcome {
         out.violate("accept_untouched", "generate_failed", format!("config generate failed for a valid configuration of {} targets: {}", sc.n_targets, g.err_str().trim()));
         return out;
     }
-    let paths = [w.root.join(src_rel), w.root.join("Monorail.json"), w.root.join("Monorail.lock")];
+    let paths = [w.root.join(&src_rel_root), w.root.join("Monorail.json"), w.root.join("Monorail.lock")];
     let orig: Vec<Vec<u8>> = paths.iter().map(|p| std::fs::read(p).unwrap_or_default()).collect();
     let gen_len = orig[1].len();
     out.trace.push(format!("generated {} targets: source {} B, generated {} B, lockfile {} B", sc.n_targets, orig[0].len(), gen_len, orig[2].len()));
     out.probe(&format!("generated_size_over_{}", if gen_len > 65536 { 65536 } else if gen_len > 16384 { 16384 } else if gen_len > 8192 { 8192 } else if gen_len > 4096 { 4096 } else { 0 }), 1);
     // ---- positive phase: untouched files => every API works
+    // `out delete` resolves the output directory against the working directory, not against the configuration's
+    // directory: from a sub-directory it fails for every configuration, generated or not (not C17's subject)
+    let cwd_sub = sc.cwd_sub;
     let positive = |w: &mut World, out: &mut Outcome, label: &str| -> bool {
-        for api in APIS.iter() {
+        for api in APIS.iter().filter(|a| !(cwd_sub && a[0] == "out")) {
             let r = if api[0] == "run" { controlled(w, api, hang) } else { Some((proc_of(w.cli(api)), 0)) };
             out.sub_evals += 1;
             let (x, started) = match r {
